@@ -469,10 +469,11 @@ def _check_edits(model):
         warm = _oracle(fm, model, 'A')          # every query has been asked once
         if any(f.clause != 'relation-class-count' for f in warm):
             return warm
-        edit(fm)
+        try:
+            cm.checked_edit(fm, edit, model, em, what)
+        except cm.ModelMutatedByLibrary as exc:
+            return [Fail('queries-mutate-the-model', str(exc)[:300])]
         engine.tick()
-        if bd.observe(fm) != em:
-            raise AssertionError('in-place edit did not give the expected model: %s' % what)
         after = [f for f in _oracle(fm, em, 'A') if f.clause != 'relation-class-count' or
                  not any(sem.kind(a, b, len(k)) is None for (_p, a, b, k) in sh.relations(em))]
         if not after and em[1]:
